@@ -53,7 +53,7 @@ META = {
              "{2 committers, committer+packer, 2 packers+auto-committer, packer+reader, ...} x context-bounded and random "
              "schedules; non-trivial = some process reloaded, or a packer ran, or the merge changed the disk set"),
 }
-SHARD = 200
+SHARD = 48
 
 _state = {}
 _tl = threading.local()
@@ -294,6 +294,8 @@ def _note_pack(name):
     d = _state.get("cur")
     if d is None:
         return
+    if name in _state["table"]:
+        _state["dups"].add(name)      # a pack file with an already existing name was produced
     try:
         _state["table"][name] = _index_revs(os.path.join(d, ".bzr/repository/indices"), name)
     except Exception:
@@ -345,7 +347,7 @@ def _run_sched(inp):
     _state["n"] += 1
     d = os.path.join(_state["dir"], "run%d" % _state["n"])
     shutil.copytree(tp, d)
-    _state["cur"], _state["table"] = d, table
+    _state["cur"], _state["table"], _state["dups"] = d, table, set()
     url = "verif+file://" + d
     try:
         s = _Sched()
@@ -382,7 +384,9 @@ def _run_sched(inp):
         except Exception as e:
             final = Err(type(e).__name__)
         _state["last_traces"] = [p.trace for p in s.procs.values()]
-        return [results, listed, present, obsolete, final]
+        dup_contents = sorted(table.get(n, [-1]) for n in _state["dups"])
+        # the last element is harness-side information for finding_matches only (not predicted by the model)
+        return [results, listed, present, obsolete, final, bool(_state["dups"]), dup_contents]
     finally:
         _state["cur"] = None
         shutil.rmtree(d, ignore_errors=True)
@@ -438,7 +442,7 @@ def _algebra1(kind, at, cur, disk):
 def setup(scratch):
     import breezy
     import breezy.bzr  # noqa
-    _state.update(dir=scratch, templates={}, ttables={}, n=0, cur=None, table={}, alg=None)
+    _state.update(dir=scratch, templates={}, ttables={}, n=0, cur=None, table={}, alg=None, dups=set())
     _register()
 
 
@@ -492,7 +496,7 @@ def cases(rng, tier):
             yield {"kind": "reload", "at": a, "cur": c, "disks": su}
     # (b) schedules: context-bounded (one and two preemptions) then random
     scen = SCENARIOS
-    per = 12 if tier == "quick" else 200
+    per = 8 if tier == "quick" else 120
     for base, roles in scen:
         n = len(roles)
         # one preemption: p runs k steps, then q runs to completion, then the rest
@@ -500,7 +504,7 @@ def cases(rng, tier):
         pairs = [(p, q) for p in range(n) for q in range(n) if p != q]
         picks = [(p, q, k) for (p, q) in pairs for k in ks]
         rng.shuffle(picks)
-        for p, q, k in picks[: (16 if tier == "quick" else len(picks))]:
+        for p, q, k in picks[: (12 if tier == "quick" else len(picks))]:
             yield {"kind": "sched", "base": base, "roles": roles, "sched": [p] * k + [q] * STEPS}
         for _ in range(per):
             # random: bursts of random length
@@ -514,6 +518,12 @@ def impl(inp):
     if inp["kind"] == "sched":
         return _run_sched(inp)
     return _algebra(inp)
+
+
+def impl_obs(inp, obs):
+    if inp["kind"] == "sched" and not isinstance(obs, Err):
+        return obs[:6]
+    return obs
 
 
 def _coq_role(r):
@@ -548,12 +558,16 @@ def oracle(inp, obs):
             if inp["kind"] == "save" and not (o[0] == o[1] == o[2]):
                 return f"save: written list {o[0]}, _packs_at_load {o[1]} and _names {o[2]} differ afterwards"
         return None
-    results, listed, present, obsolete, final = obs
+    results, listed, present, obsolete, final = obs[:5]
     base_revs = sorted(r for b in inp["base"] for r in b)
     must = set(base_revs)
     for r, res in zip(inp["roles"], results):
         if str(res[0]) == "fail":
-            return f"operation {r} failed under this schedule"
+            # a failed commit did not commit and a failed pack() loses nothing: not what C05 states
+            # (the model predicts these failures too; they are compared by the correspondence run)
+            if r[0] == "read":
+                return "reader failed: it could not find the data of its view even after reloading"
+            continue
         if r[0] == "commit":
             must |= set(r[1])
         if r[0] == "read" and not set(base_revs) <= set(res[1]):
@@ -571,23 +585,36 @@ def oracle(inp, obs):
     return None
 
 
-def _packing_processes(inp):
-    nrev = sum(len(b) for b in inp["base"])
-    n = 0
-    for r in inp["roles"]:
-        if r[0] == "pack" or (r[0] == "commit" and nrev + len(r[1]) >= 10):
-            n += 1
-    return n
-
-
 def finding_matches(fid, inp, obs, why):
-    if fid == "C05-identical-repack-relisted":
-        # needs two packers that can produce the identical pack plus a third operation that repacks it away
-        return (inp.get("kind") == "sched" and _packing_processes(inp) >= 3
-                and sum(1 for r in inp["roles"] if r[0] == "pack") >= 2
-                and ("listed pack missing" in (why or "") or "failed under this schedule" in (why or "")
-                     or "unreadable" in (why or "") or not why))
-    return False
+    """C05-identical-repack-relisted, and nothing else: pack-names lists a pack that is absent from
+    packs/, that very pack (same content hash = same name) was produced by two different operations
+    of this run, and no committed revision is lost or unlisted.  Failed operations / an unreadable
+    repository are accepted only as consequences of exactly that state."""
+    if fid != "C05-identical-repack-relisted":
+        return False
+    if inp.get("kind") != "sched" or isinstance(obs, Err) or len(obs) < 7:
+        return False
+    results, listed, present, obsolete, final, collided, dup_contents = obs
+    missing = [pk for pk in listed if pk not in present]
+    if not collided or not missing or any(pk not in dup_contents for pk in missing):
+        return False
+    why = why or ""
+    if not (why.startswith("listed pack missing") or why.startswith("reader failed")
+            or why.startswith("repository unreadable")):
+        return False
+    # every other clause of the property must hold, otherwise it is a different violation
+    must = set(r for b in inp["base"] for r in b)
+    for r, res in zip(inp["roles"], results):
+        if r[0] == "commit" and str(res[0]) == "ok":
+            must |= set(r[1])
+        if r[0] == "read" and str(res[0]) == "ok" and not set(x for b in inp["base"] for x in b) <= set(res[1]):
+            return False
+    have_present = set(r for pk in listed if pk in present for r in pk)
+    if not must <= have_present:
+        return False          # a committed revision is only in the missing pack (or nowhere): real data loss
+    if not isinstance(final, Err) and not must <= set(final):
+        return False
+    return True
 
 
 def nontrivial(inp, obs):
@@ -617,8 +644,8 @@ def distribution(inputs, observations):
 
 
 def shrink(inp, fails):
-    if inp["kind"] != "sched":
-        return inp
+    if inp["kind"] != "sched" or not os.path.isdir(_state.get("dir") or "/nonexistent"):
+        return inp          # the scratch directory is gone when the framework shrinks: keep the original
     sched = list(inp["sched"])
     changed = True
     while changed and len(sched) > 0:
